@@ -187,6 +187,9 @@ def timers(ctx, quick):
 
 def main(ctx):
     from harness.drivers import lifecycle, crashpoints
+    if ctx.replay_path:
+        from checks import replay_mine
+        return replay_mine.c09(ctx)
     quick = ctx.tier == 'quick'
     # ---- 1. design check ----
     mc(ctx, 'c09_mc1', dict(MaxOps=4), INVS)
